@@ -94,7 +94,14 @@ def run(tier, seed):
                     break
         # heating profile formula
         ecc, n_orb, a_sma, Mh = 0.05, 2.0e-5, 4.0e8, 1.9e27
-        hr = calc_radial_tidal_heating(ecc, n_orb, a_sma, Mh, radius, np.array([e_mu] * 3), shear, l)
+        sens_in = np.array([e_mu] * 3)
+        keep_h = [a.copy() for a in (radius, sens_in, shear)]
+        hr = calc_radial_tidal_heating(ecc, n_orb, a_sma, Mh, radius, sens_in, shear, l)
+        hr2 = calc_radial_tidal_heating(ecc, n_orb, a_sma, Mh, radius, sens_in, shear, l)       # same arrays again (a scan over e or n reuses them)
+        if not all(np.array_equal(a, b) for a, b in zip((radius, sens_in, shear), keep_h)) or not np.array_equal(hr, hr2):
+            ck.violation({"clause": "heating_inputs_unmodified"}, "calc_radial_tidal_heating changed its input arrays / a repeated call differs: %s vs %s" % (hr.tolist(), hr2.tolist()), det)
+            sens_in = keep_h[1].copy()
+            hr = calc_radial_tidal_heating(ecc, n_orb, a_sma, Mh, radius, sens_in, shear, l)
         Rw = radius[-1]
         sus = 1.5 * G * Mh ** 2 * Rw ** 5 / a_sma ** 6
         exp = np.maximum((sus / Rw) * (G * e_mu * np.imag(shear) / ((2 * l + 1) * radius ** 2)) * (7 * ecc ** 2 * n_orb), 0.0)
@@ -155,10 +162,17 @@ def energy_theorem(ck, rng, tier, worst):
                     hk = sensitivity_to_bulk(np.ascontiguousarray(y[:, sl]), p.radius[sl], p.shear[sl], p.bulk[sl].astype(np.complex128), l)
                     # (no sign predicate on solver output: with finite-difference gradients the kernels are sums of squares only up to
                     #  discretisation error; non-negativity is decided exactly on the lattice by TLC)
+                    hm_keep = hm.copy()
                     integral += np.trapz(hm * np.imag(p.shear[sl]), p.radius[sl])
                     # heating profile summed over shells (full radius array needed for the world radius: pass the layer with the world radius appended)
                     prof = calc_radial_tidal_heating(ecc, w, a_sma, Mh, np.append(p.radius[sl], p.R), np.append(hm, 0.0), np.append(p.shear[sl], 0j), l)[:-1]
                     shells += np.trapz(prof * 4 * math.pi * p.radius[sl] ** 2, p.radius[sl])
+                    # a scan over eccentricity for one solved interior reuses the same sensitivity profile
+                    hm_app = np.append(hm, 0.0)
+                    pr1 = calc_radial_tidal_heating(ecc, w, a_sma, Mh, np.append(p.radius[sl], p.R), hm_app, np.append(p.shear[sl], 0j), l)
+                    pr2 = calc_radial_tidal_heating(2 * ecc, w, a_sma, Mh, np.append(p.radius[sl], p.R), hm_app, np.append(p.shear[sl], 0j), l)
+                    if not np.array_equal(hm, hm_keep) or not np.allclose(pr2, 4.0 * pr1, rtol=1e-12, atol=0.0):
+                        ck.violation({"clause": "heating_inputs_unmodified", "body": name}, "heating profile of a second call (e doubled) is not 4x the first / sensitivity array changed", det)
                 lhs = 4 * math.pi * G / ((2 * l + 1) * p.R) * integral
                 defect = abs(lhs / negimk - 1.0)
                 defects.append(defect)
